@@ -35,8 +35,13 @@ def main():
         if hasattr(mod, 'selftest'):
             mod.selftest(check)
         mod.run(check, prog)
-        if args.tier == 'thorough' and hasattr(mod, 'thorough'):
-            mod.thorough(check, prog)
+        if args.tier == 'thorough':
+            if hasattr(mod, 'thorough'):
+                mod.thorough(check, prog)
+            targets = getattr(mod, 'MUTATION_TARGETS', None)
+            if targets:
+                from hpstatic.mutate import battery
+                battery(check, prog, targets)
     except AnalysisError as e:
         check.error(str(e))
     except Exception as e:  # a traceback must never look like a violation
